@@ -121,8 +121,14 @@ def generate(seed, tier, idx=0):
                 scripts[key] = gen_ops(rng, rng.randint(1, 3), n_types, n_list, 1)
     ops = gen_ops(rng, rng.choice([3, 5, 8, 12, 20, 30, 40]) if rng.random() > 0.01
                   else rng.choice([150, 400]), n_types, n_list, 0)
-    return {"kind": "history", "n_types": n_types, "n_listeners": n_list,
+    case = {"kind": "history", "n_types": n_types, "n_listeners": n_list,
             "ops": ops, "scripts": scripts}
+    if rng.random() < 0.3:
+        # listeners that are legal EventListener objects but falsy: an inbox with
+        # __len__ (empty until its first delivery) or a permanently false object
+        case["listener_kinds"] = [rng.choice(["plain", "inbox", "inbox", "falsy"])
+                                  for _ in range(n_list)]
+    return case
 
 
 def _value_of(rng, tp):
@@ -142,6 +148,29 @@ class Listener(EventListener):
         self.world.delivered(self, event)
 
 
+class InboxListener(Listener):
+    """Keeps what it received; len() = number of deliveries (falsy while empty)."""
+
+    def __init__(self, idx, world):
+        super().__init__(idx, world)
+        self.inbox = []
+
+    def notify(self, event):
+        self.inbox.append(event)
+        super().notify(event)
+
+    def __len__(self):
+        return len(self.inbox)
+
+
+class FalsyListener(Listener):
+    def __bool__(self):
+        return False
+
+
+LISTENER_KINDS = {"plain": Listener, "inbox": InboxListener, "falsy": FalsyListener}
+
+
 class World:
     """Runs the history on the real producer."""
 
@@ -149,7 +178,8 @@ class World:
         self.case = case
         self.p = EventProducer()
         self.types = PLAIN[:case["n_types"]]
-        self.listeners = [Listener(i, self) for i in range(case["n_listeners"])]
+        kinds = case.get("listener_kinds") or ["plain"] * case["n_listeners"]
+        self.listeners = [LISTENER_KINDS[kinds[i]](i, self) for i in range(case["n_listeners"])]
         self.log = []
         self.counts = {}
         self.depth = 0
